@@ -64,7 +64,13 @@ EmitBuf(S, o, r, e) == [S EXCEPT !.ev.buf = Append(@, Ev(S.now, o, r, e))]
 
 (* ------------------------------ queries --------------------------------- *)
 HotUsed(S) == cfg.hotCap - S.buf.hotFree
-OverThreshold(S) == HotUsed(S) * 10 > 6 * cfg.hotCap
+(* x / cap > 0.6 and x / cap < 0.6 without products that leave TLC's 32-bit *)
+(* integers (capacities of 10^9 and more are realistic)                      *)
+Floor60(cap) == 6 * (cap \div 10) + (6 * (cap % 10)) \div 10            \* floor(0.6 cap)
+Ceil60(cap) == 6 * (cap \div 10) + (6 * (cap % 10) + 9) \div 10         \* ceil(0.6 cap)
+Above60(x, cap) == x > Floor60(cap)
+Below60(x, cap) == x < Ceil60(cap)
+OverThreshold(S) == Above60(HotUsed(S), cfg.hotCap)
 ColdHasCapacity(S, size) ==
     S.buf.coldFree - (size + IF S.buf.coldTr # "" THEN S.obs[S.buf.coldTr].data ELSE 0) >= 0
 HotHasCapacity(S, size) ==
